@@ -963,6 +963,11 @@ func genReuse(t *rapid.T) reuseCase {
 	var c reuseCase
 	c.Alis = genAlis(t, 5)
 	c.Cfg = genConfig(t, true)
+	// a third of the histories with empirical frequencies: the model object is then initialised again
+	// (InitModel(alignment, weights)) before each alignment, which has its own composition
+	if rapid.IntRange(0, 2).Draw(t, "empirical") == 0 {
+		c.Cfg.ModelFreqs = false
+	}
 	// gap-site removal is what makes the history matter most
 	if rapid.IntRange(0, 3).Draw(t, "forcerm") > 0 {
 		c.Cfg.RmGaps = true
@@ -999,7 +1004,7 @@ func denseToRows(d interface {
 }
 
 func checkReuse(c reuseCase) (o pbt.Outcome, err error) {
-	if len(c.Alis) < 2 || len(c.Weights) != len(c.Alis) || !c.Cfg.ModelFreqs {
+	if len(c.Alis) < 2 || len(c.Weights) != len(c.Alis) {
 		o.Skip = true
 		return o, nil
 	}
@@ -1009,19 +1014,31 @@ func checkReuse(c reuseCase) (o pbt.Outcome, err error) {
 			return o, nil
 		}
 	}
-	// exactly the call pattern of the commands
-	m, e := protein.NewProtDistModel(modelCode(c.Cfg.Model), true, c.Cfg.Gamma, c.Cfg.Alpha, c.Cfg.RmGaps)
+	// model frequencies: exactly the call pattern of the commands (InitModel(nil,nil) once). Empirical
+	// frequencies (library option): the same object is initialised for each alignment in turn,
+	// InitModel(alignment, weights) then MLDist(alignment, weights)
+	m, e := protein.NewProtDistModel(modelCode(c.Cfg.Model), c.Cfg.ModelFreqs, c.Cfg.Gamma, c.Cfg.Alpha, c.Cfg.RmGaps)
 	if e != nil {
 		return o, fmt.Errorf("NewProtDistModel: %v", e)
 	}
-	if e = m.InitModel(nil, nil); e != nil {
-		return o, fmt.Errorf("InitModel(nil, nil): %v", e)
+	if c.Cfg.ModelFreqs {
+		if e = m.InitModel(nil, nil); e != nil {
+			return o, fmt.Errorf("InitModel(nil, nil): %v", e)
+		}
 	}
 	history := false
 	for i, a := range c.Alis {
 		var w []float64
 		if c.Weights[i] != nil {
 			w = append([]float64{}, c.Weights[i]...)
+		}
+		if !c.Cfg.ModelFreqs {
+			if e = m.InitModel(gen.MustBuild(a), w); e != nil {
+				return o, fmt.Errorf("InitModel for alignment %d of %d on a model object already initialised for the previous ones: %v", i+1, len(c.Alis), e)
+			}
+			if i > 0 {
+				history = true
+			}
 		}
 		_, _, dm, e := m.MLDist(gen.MustBuild(a), w)
 		if e != nil {
